@@ -316,6 +316,9 @@ class Term:
             self.discr = Operand(j['discr'])
             self.dty = j['dty']
             self.targets = [(int(v), b) for v, b in j['targets']]
+            bits = {'i8': 8, 'i16': 16, 'i32': 32, 'i64': 64, 'i128': 128, 'isize': 64}.get(self.dty)
+            if bits:     # SwitchInt values are raw bits: `match frame { NULL_FRAME => .. }` on an i32 arrives as 4294967295
+                self.targets = [(v - (1 << bits) if v >= (1 << (bits - 1)) else v, b) for v, b in self.targets]
             self.otherwise = j['otherwise']
         elif self.k == 'assert':
             self.cond = Operand(j['cond'])
@@ -445,6 +448,15 @@ class Facts:
         with open(path) as f:
             j = json.load(f)
         self.crate = j['crate']
+        self.inlined = []
+        if j['crate'] == 'ggrs':
+            # extracted helpers (functions that did not exist at review time) are spliced back into their callers: see rules/inline.py
+            import os
+            from . import inline
+            tab = os.path.join(os.path.dirname(os.path.dirname(os.path.abspath(__file__))), 'tables', 'call_edges_all.json')
+            with open(tab) as tf:
+                reviewed = set(json.load(tf)['functions'])
+            self.inlined = inline.inline_new_helpers(j, reviewed)
         self.debug_assertions = j['debug_assertions']
         self.overflow_checks = j['overflow_checks']
         self.features = j['features']
